@@ -503,6 +503,19 @@ func (d *Driver) tailLeaderCheck(prop string) {
 			}
 		}
 		if !found {
+			// "never without a claiming leader for longer than the TTL plus the bound": a leader
+			// that lost its record inside the tail (heartbeats held up by scheduler stalls for a
+			// whole TTL) leaves a vacancy that may still be young when the plan ends
+			last := time.Duration(-1)
+			for _, x := range d.terms() {
+				if d.insts[x.Inst].cfg.Group == g && x.Fall != nil && x.End > last {
+					last = x.End
+				}
+			}
+			if last >= 0 && d.endAt-last <= d.plan.TTL+600*time.Millisecond+2*(d.plan.Store.Req[1]+d.plan.Store.Resp[1])+4*d.plan.Sched.StallMax {
+				d.skip(prop, "tail-vacancy-younger-than-ttl-plus-bound")
+				continue
+			}
 			var who []string
 			for _, in := range d.insts {
 				if in.cfg.Group == g && in.running {
